@@ -151,7 +151,27 @@ def trees(stt, max_leaves):
 @st.composite
 def leaf_cases(draw):
     stt = draw(states())
-    return dict(state=stt, tree=draw(leaves(stt)))
+    c = dict(state=stt, tree=draw(leaves(stt)))
+    if draw(st.integers(0, 2)) == 0:
+        c['other'] = draw(other_state(stt))
+    return c
+
+
+@st.composite
+def other_state(draw, stt):
+    """a second solver state the same condition object is asked about in between: same population and best
+    solution, another objective, history and counters"""
+    dim = len(stt['best'])
+    o = dict(stt)
+    o['lin'] = draw(st.lists(st.sampled_from([0.0, 1.0, -2.0, 0.5, 1e-5, 3.0, 4.0]), min_size=dim, max_size=dim))
+    n = draw(st.integers(0, 12))
+    o['hist'] = draw(st.lists(pool_or_float(VALS, -10, 10), min_size=n, max_size=n))
+    if draw(st.booleans()):
+        o['hist'] = sorted(o['hist'], key=F, reverse=True)
+    o['gens'] = draw(st.integers(0, 12)); o['fcalls'] = draw(st.integers(0, 60)); o['exit'] = draw(st.booleans())
+    if draw(st.booleans()):
+        o['popE'] = [draw(pool_or_float(VALS, -5, 5)) for _ in stt['popE']]
+    return o
 
 
 @st.composite
@@ -218,7 +238,10 @@ def _change(h, g, tol):
         return False
     a, b = w
     if a == b:                      # x - x = 0, also for +-inf (the code's tie clause)
-        return 0.0 <= tol if math.isfinite(a) else True
+        if math.isfinite(a) and tol < 0:
+            return None             # a negative tolerance is outside the documented use ('change < tolerance'); the
+                                    # code's tie clause and the inequality disagree there: not decided
+        return True
     d = a - b
     if d != d:
         return None
@@ -355,6 +378,21 @@ def run_leaf(case, ctx):
                lambda: dict(condition=cond.__doc__, info=info, got=bool(got)))
     if info:
         ctx.expect(info == cond.__doc__, 'C10.info_leaf', lambda: dict(condition=cond.__doc__, info=info))
+    if case.get('other') is not None:
+        # the same condition object asked about another solver in between: every answer is about the
+        # solver it is given (current history, population, counters, objective)
+        ctx.label('asked-about-two-solvers')
+        ostt = case['other']; s2 = build_state(ostt)
+        want2 = leaf_truth(name, tree[2], ostt)
+        got2 = cond(s2)
+        if want2 is not None:
+            ctx.expect(bool(got2) == want2, 'C10.leaf',
+                       lambda: dict(condition=cond.__doc__, expected=want2, got=bool(got2), hist=ostt['hist'],
+                                    note='second solver state, same condition object'))
+        again = cond(s)
+        ctx.expect(bool(again) == bool(got), 'C10.leaf',
+                   lambda: dict(condition=cond.__doc__, first=bool(got), again=bool(again), hist=stt['hist'],
+                                note='same state asked again after the condition was used on another solver'))
     # rebuild from the reported state
     stdict = T.state(cond)
     ctx.expect(list(stdict.keys()) == [cond.__doc__], 'C10.state', lambda: dict(keys=list(stdict), doc=cond.__doc__))
